@@ -8,15 +8,15 @@ def parse_one(func, nl=3, vl=4, tier='quick', timeout=600, mem_gb=8):
     return Ob('parse.%s.NL%d.VL%d' % (nm, nl, vl), 'hdr/parse_one.c', units=HDR_UNITS, models=HDR_MODELS, remove=HDR_RM, defines={'FUNC': func, 'NL': nl, 'VL': vl, 'FA_CAP': 24}, unwind=nl + vl + 12,
               unwindset=['strlen.0:40', 'htp_convert_method_to_number.0:45'], tier=tier, timeout=timeout, mem_gb=mem_gb,
               statement='a generated %s (symbolic terminals) is parsed into exactly the generated fields' % nm.replace('_', ' '), bounds='name <= %d, value <= %d bytes, OWS 0..2 SP/HT, optional LF / CRLF' % (nl, vl))
-def smuggle(scen, withx=0, xpos=0, order=0, urih=0, hh=0, tier='quick', timeout=900, mem_gb=12, **kw):
+def smuggle(scen, withx=0, xpos=0, order=0, urih=0, hh=0, tier='quick', timeout=900, mem_gb=7, **kw):
     nm = {1: 'te_and_cl', 2: 'two_cl', 3: 'te_alone', 4: 'cl_alone', 5: 'host', 6: 'folded_cl'}[scen]
-    d = {'SCEN': scen, 'FA_CAP': 48}
+    d = {'SCEN': scen, 'FA_CAP': 40}
     if scen in (1, 2): d.update({'WITHX': withx, 'XPOS': xpos, 'ORDER': order}); nm += ('.x%d' % xpos if withx else '.nox') + ('.o%d' % order if scen == 1 else '')
     if scen == 5: d.update({'URIH': urih, 'HH': hh}); nm += '.uri%d.hdr%d' % (urih, hh)
     return Ob('smuggle.%s' % nm, 'hdr/smuggle.c', units=HDR_UNITS_TM, models=HDR_MODELS + ['@table_model.c'], remove=HDR_RM + ['htp_hook_run_all'], defines=d, unwind=20, flags=['--no-standard-checks'],
               unwind_by=[(r'^htp_table_get', 5), (r'^htp_table_', 6), (r'^htp_list_', 10), (r'^bstr_util_cmp_mem', 20), (r'^bstr_util_mem_index', 20), (r'^bstr_begins|^bstr_to_lower', 20), (r'^htp_parse_request_header_generic', 40), (r'^htp_chomp', 4),
                          (r'^htp_parse_content_length|^bstr_util_mem_to_pint', 8), (r'^strlen', 40), (r'^htp_header_has_token', 40), (r'^put_name', 20), (r'^memchr|^bstr_util_mem_trim|^htp_parse_hostport|^htp_validate_hostname', 12)],
-              tier=tier, timeout=timeout, mem_gb=(20 if scen == 5 else mem_gb),
+              tier=tier, timeout=timeout, mem_gb=mem_gb,
               statement='trigger %s applied to a generated request header block: indicator flags and framing decision exactly as demanded, for every spelling' % nm,
               bounds='all letter-case variants of the field names and of "chunked", 0..2 SP/HT around values, value formats d / 0d / x / empty, field order, irrelevant header %s, protocol 0.9/1.0/1.1; functional assertions only (--no-standard-checks; memory safety of the same functions is C01)' % ('at position %d' % xpos if withx else 'absent or symbolic'), **kw)
 
